@@ -68,8 +68,8 @@ def cnt (fs : List (Str × Str)) (k : String) : Nat := (vals fs k).length
 
 /-- special-use domain names (IANA registry: RFC 1035 §3.5, RFC 3596 §2.5, RFC 6761 §6, RFC 6762 §3): `(mustHaveLabelsBefore, suffix)` -/
 def specialDomains : List (Bool × String) :=
-  [(true, "in-addr.arpa"), (true, "ip6.arpa"), (false, "test"), (false, "localhost"), (false, "invalid"),
-   (false, "example"), (false, "example.com"), (false, "example.net"), (false, "example.org"), (true, "local")]
+  [(false, "example"), (false, "example.com"), (false, "example.net"), (false, "example.org"), (true, "in-addr.arpa"),
+   (false, "invalid"), (true, "ip6.arpa"), (true, "local"), (false, "localhost"), (false, "test")]
 
 /-- the lower-cased domain `d` is `suffix` itself (where allowed) or ends in `.suffix` after at least one more character
     (none of them a line feed) -/
